@@ -10,6 +10,8 @@ Ties (real halmos code vs extracted model vs an independent Python rendering of 
   X-codec  : strings from the codec grammars + a malformed stream through ParseTimeout /
              ParseErrorCodes / ParseArrayLengths / ParseCSVInt / ParseCSVTraceEvent and
              TomlParser.parse_dict; unparse/parse round trips of every parsed value;
+  X-natspec: NatSpec texts (tags of every kind, decoys, lonely '@', every white space) through the
+             real build.parse_natspec, the extracted model and an independent scanner;
   X-float  : binary64 values given directly (not through a string): specials, subnormals,
              whole and near-whole milliseconds, values whose product with 1000 rounds to a whole
              number, huge and negative values through ParseTimeout.unparse / parse, and the float
@@ -28,7 +30,7 @@ from harness import common
 from harness.common import Model
 
 PID = "C18"
-TRANSLATORS = ["T-config", "T-config-time", "T-config-main"]
+TRANSLATORS = ["T-config", "T-config-time", "T-config-main", "T-config-natspec"]
 
 # Genuine defects of halmos found by this check (the coordinator decides between a fix: commit
 # and known_findings.json).  Same format as known_findings.json entries.
@@ -962,6 +964,55 @@ def in_model_alphabet(codec, s):
     return True
 
 
+# ----------------------------------------------------------------- X-natspec
+
+NATSPEC_PIECES = ["@custom:halmos", "@custom:halmos", "@custom:halmos", "@notice", "@dev", "@custom:halmosx", "@custom:halmo", "@Custom:halmos", "x@custom:halmos",
+                  "@custom:halmos@dev", "@", "@@", "@ ", "a@b", " ", " ", "  ", "\n", "\t", "\n   ", "\xa0", "\x1f", "\x85", "--loop 3", "--width 5 --ffi",
+                  "title", "blah blah", "--solver-timeout-assertion 10s", ".", "", "\x0c", "@param x", "@return", "{", "@custom:halmos\t--depth 4"]
+
+
+def gen_natspec_texts(tier, r):
+    out = ["", "@custom:halmos", "@custom:halmos ", " @custom:halmos --loop 1 ", "@custom:halmos --a\n@custom:halmos --b", "x @custom:halmos --a @dev --b @custom:halmos --c",
+           "@dev --a @custom:halmos", "@custom:halmos--a", "@", "@ @custom:halmos a", "a@custom:halmos b", "@custom:halmos a @", "@custom:halmos a @ b @x c", None]
+    for _ in range(400 if tier == "quick" else 20000):
+        out.append("".join(r.choice(NATSPEC_PIECES) for _ in range(r.randint(0, 9))))
+    seen, uniq = set(), []
+    for t in out:
+        if t not in seen:
+            seen.add(t)
+            uniq.append(t)
+    return uniq
+
+
+def impl_natspec(t):
+    from halmos.build import parse_natspec
+
+    try:
+        return parse_natspec({} if t is None else {"text": t, "id": 3})
+    except Exception as e:  # noqa: BLE001
+        return f"EXC {type(e).__name__}"
+
+
+def spec_natspec(t):
+    """independent scanner (no regular expression): a tag is '@' followed by a maximal non-empty run
+    of non-white-space; the annotation is what follows each @custom:halmos tag up to the next tag,
+    concatenated and stripped"""
+    t = t or ""
+    n, i, res, on = len(t), 0, [], False
+    while i < n:
+        if t[i] == "@" and i + 1 < n and not t[i + 1].isspace():
+            j = i + 1
+            while j < n and not t[j].isspace():
+                j += 1
+            on = t[i:j] == "@custom:halmos"
+            i = j
+        else:
+            if on:
+                res.append(t[i])
+            i += 1
+    return "".join(res).strip()
+
+
 # ----------------------------------------------------------------- run
 
 def run(rep, tier):
@@ -990,16 +1041,19 @@ def run(rep, tier):
     codec_cases = gen_codec_strings(tier, r)
     float_cases = gen_float_values(tier, r)
     int_cases = gen_int_values(tier, r)
+    natspec_cases = gen_natspec_texts(tier, r)
     with Pool(min(16, os.cpu_count() or 4)) as pool:
         a_stack = pool.map_async(impl_stack_case, stack_cases, chunksize=32)
         a_run = pool.map_async(impl_runner_case, runner_cases, chunksize=1)
         a_codec = pool.map_async(impl_codec, codec_cases, chunksize=128)
         a_float = pool.map_async(impl_float, float_cases, chunksize=64)
         a_int = pool.map_async(impl_int, int_cases, chunksize=64)
+        a_nat = pool.map_async(impl_natspec, natspec_cases, chunksize=128)
         stack_impl = a_stack.get()
         codec_impl = a_codec.get()
         float_impl = a_float.get()
         int_impl = a_int.get()
+        natspec_impl = a_nat.get()
         runner_impl = a_run.get()
 
     # ---------------- X-stack
@@ -1054,6 +1108,20 @@ def run(rep, tier):
     rep.coverage["exhaustive"] = True
     rep.coverage["exhaustive_note"] = ("X-stack includes every stack of height <= %d over sources 1..5 x {set, unset} for one option and every stack of height <= %d over "
                                        "sources x {solver set/unset} x {solver_command unset/''/'cmdA'}; X-codec includes every integer-ms timeout below the bound; X-float includes the non-finite values, both zeros, the extreme subnormal/normal magnitudes and a searched set of values whose product with 1000 is whole only after rounding and does not divide back") % ((3, 2) if tier == "quick" else (5, 3))
+
+    # ---------------- X-natspec
+    nres = m.parallel_batch([("c18_natspec", S(t or "")) for t in natspec_cases]) if m is not None else None
+    for k, t in enumerate(natspec_cases):
+        got = natspec_impl[k]
+        ntags = (t or "").count("@custom:halmos")
+        rep.count("natspec_halmos_tags", min(ntags, 4))
+        rep.case({"natspec": t}, nontrivial=ntags > 0)
+        want = spec_natspec(t)
+        case = {"tie": "X-natspec", "text": t, "implementation": got, "spec": want}
+        if got != want:
+            fail("failing-input", f"parse_natspec({t!r}) = {got!r}; the text of the @custom:halmos tags is {want!r}", case, sig={"tie": "natspec"})
+        elif nres is not None and (nres[k] is None or U(nres[k]) != got):
+            fail("broken-tie", f"parse_natspec({t!r}): model {None if nres[k] is None else U(nres[k])!r}, implementation {got!r}", case)
 
     # ---------------- X-codec
     calls = []
@@ -1179,12 +1247,13 @@ def run(rep, tier):
             fail("broken-tie", f"timeout: the integer {i} as a number in halmos.toml: model {fres[3 * nfl + k]}, implementation {o['toml']}", case)
     rep.coverage["traces_validated_against_impl"] = (len(stack_cases) + nfun + len(idx) + (nfl if fres is not None else 0)) if m is not None else 0
     return rep.finish(
-        checker_cmd="make -C coq Props/C18.vo (coq_makefile, coqc 8.16.1) after regenerating coq/Gen/GenConfig.v, GenConfigTime.v, GenConfigMain.v from /repo/src/halmos/{config,utils,__main__}.py",
+        checker_cmd="make -C coq Props/C18.vo (coq_makefile, coqc 8.16.1) after regenerating coq/Gen/GenConfig.v, GenConfigTime.v, GenConfigMain.v, GenConfigNatspec.v from /repo/src/halmos/{config,utils,__main__,build}.py",
         trusted_base=common.TRUSTED_BASE_COMMON + ["argparse / toml / shlex / re of CPython 3.12 (annotation text -> option values)"],
         assumptions=ASSUMPTIONS,
         partial=PARTIAL,
         rule="X-stack: random stacks of 1..9 layers (bottom optionally the real default_config()), sources 0..5 with many equal sources, random subsets of 14 representative options including falsy values (0, False, '', empty set), built with the real Config/with_overrides; observed: value_with_source, two attribute reads, resolved_solver_command for every option; non-trivial = height >= 2. "
              "X-runner: fabricated forge projects (1-3 contracts x 1-3 test functions, natspec with @custom:halmos in single/multi-line/multi-tag/mid-line placements and decoy tags, devdoc entries, halmos.toml, command line) run through the real _main/run_contract/run_tests with run_test replaced by a recorder; non-trivial = at least one annotation. "
+             "X-natspec: concatenations of 0-9 pieces (halmos tags, other tags, near-miss tags, lonely and doubled '@', tags glued to text, every kind of white space, option text) and the missing-text case through the real build.parse_natspec; compared with an independent regex-free scanner and with the extracted model; non-trivial = contains @custom:halmos. "
              "X-codec: grammar-generated and malformed strings per codec (timeouts: decimals, scientific notation, the words float() knows, huge/tiny/negative magnitudes), all integer ms/s timeouts up to a bound; observed: parse (value or rejection), TomlParser.parse_dict, unparse, re-parse; compared with an independent regex/Fraction rendering of the documented grammar and, bit for bit, with the extracted model. "
              "X-float also hands every value, and a list of integers (0, small, above 2^53, up to 1e309, negative), to TomlParser.parse_dict as a NUMBER (parse_time's int|float arm): spec = that many milliseconds, model = x/1000 rounded once, bit for bit. "
              "X-float: binary64 values handed to ParseTimeout.unparse directly (specials, subnormals, whole milliseconds and their neighbours, values whose product with 1000 is whole only after rounding, whole seconds and halves up to 1e17, magnitudes next to the overflow of value*1000 in both signs, random bit patterns, powers of two); observed: unparse (string or exception), re-parse, repr; the value must survive (same number / same infinity / nan again) and the model must give the same strings. distinct by hash of the case.",
@@ -1270,7 +1339,9 @@ def model_unparse_call(codec, mr):
 def replay(rep, body):
     for f in body.get("failures", []):
         case = f.get("case") or {}
-        if case.get("tie") == "X-float":
+        if case.get("tie") == "X-natspec":
+            print("natspec", repr(case["text"]), "->", repr(impl_natspec(case["text"])), "spec:", repr(spec_natspec(case["text"])))
+        elif case.get("tie") == "X-float":
             print("float", case["value"], "->", impl_float(case["value"]))
         elif case.get("tie") == "X-codec":
             print("codec", case["codec"], repr(case["string"]), "->", impl_codec((case["codec"], case["string"])), "spec:", SPEC_PARSE[case["codec"]](case["string"]))
